@@ -547,6 +547,36 @@ def mon_c05(tr: Trace) -> list[Violation]:
             rns0 = [e[0] for e in execs]
             if any(b < a for a, b in zip(rns0, rns0[1:])):
                 out.append(Violation("C05/retry_number_went_back", f"{step} uid={uid}: retry_info().retry_number sequence {rns0} (a re-run lost the invocation's retry count)", _replay(tr)))
+                continue
+            # (a waiter id shared by several invocations of the step is ONE waiter entry — the later AddWaiter replaces the
+            # earlier one and a stale timeout of the earlier registration replays the later invocation a second time —
+            # outside "one invocation, its own wait": only steps whose waiter ids are unshared are accounted)
+            shared_wid = any(k[0] == step and len(v) > 1 for k, v in c10_waiter_users(tr).items())
+            if "collect" not in ops and not tr.spec.get("_resumed") and not tr.spec.get("eq_events") and not shared_wid:
+                # a waiting step: a suspension (WaitingForEvent) is not an attempt and its replay continues the invocation,
+                # so every execution runs with retry_number = failed executions of this invocation so far, and a retry
+                # (also one that follows a replay) sees the exception of the last failed execution
+                failures = 0
+                last_exc = None
+                for e in execs:
+                    st = e[3] or ""
+                    ri = e[4] or {}
+                    if e[0] != failures:
+                        out.append(Violation("C05/retry_number_across_wait", f"{step} uid={uid}: an execution ran with retry_number {e[0]} after {failures} failed "
+                                             f"execution(s) of this invocation (statuses {[x[3] for x in execs]}, numbers {rns0})", _replay(tr)))
+                        break
+                    if failures and last_exc is not None and last_exc.startswith("raise:Boom") and ri.get("last_exc") is None:
+                        out.append(Violation("C05/retry_info_exception_across_wait", f"{step} uid={uid}: retry {e[0]} reports no last_exception after {last_exc}", _replay(tr)))
+                        break
+                    if st.startswith("raise:") and st != "raise:WaitingForEvent":
+                        failures += 1
+                        last_exc = st
+                # the WorkflowFailedEvent of this invocation reports every failed execution, those before the wait included
+                if failed_pubs and failed_pubs[0][0].step_name == step and all(x[2] is not None for x in execs):
+                    mine = [k for k, ex in lin.items() if k[0] == step and ex and (ex[-1][3] or "").startswith("raise:") and ex[-1][3] != "raise:WaitingForEvent"]
+                    if mine == [(step, uid)] and failed_pubs[0][0].attempts != failures:
+                        out.append(Violation("C05/reported_attempts_across_wait", f"WorkflowFailedEvent.attempts={failed_pubs[0][0].attempts} but {step} uid={uid} "
+                                             f"failed {failures} times (statuses {[x[3] for x in execs]})", _replay(tr)))
             continue
         # retry numbers are 0,1,2,... and each retry sees the previous attempt's exception
         rns = [e[0] for e in execs]
@@ -708,6 +738,27 @@ def mon_c08(tr: Trace) -> list[Violation]:
                 out.append(Violation("C08/handler_entered_without_failure", f"handler {rec[1]} entered with a non-failure event", _replay(tr)))
             elif expected_owner(spec, sfe["step"]) != rec[1]:
                 out.append(Violation("C08/wrong_handler_entered", f"handler {rec[1]} entered for a failure of {sfe['step']} owned by {expected_owner(spec, sfe['step'])}", _replay(tr)))
+    # an invocation that suspends in wait_for_event comes back (resolution, timeout) with the recovery counts it had:
+    # whatever runs or is queued for the SAME input event afterwards carries the counts recorded at the suspension
+    suspended_rc: dict[int, tuple] = {}
+    dropped = False
+    for c in _runner_calls(tr):
+        if c.after is None or c.error is not None or dropped:
+            continue
+        if isinstance(c.tick, T.TickStepResult) and any(isinstance(r, R.AddWaiter) for r in c.tick.result):
+            ex = next((ip for ip in c.before.workers[c.tick.step_name].in_progress if ip.worker_id == c.tick.worker_id), None)
+            if ex is not None:
+                suspended_rc.setdefault(id(ex.event), (ex.event, c.tick.step_name, dict(ex.recovery_counts)))
+        for name, ws in c.after.workers.items():
+            for a in list(ws.queue) + list(ws.in_progress):
+                hit = suspended_rc.get(id(a.event))
+                if hit is not None and hit[0] is a.event and hit[1] == name and dict(a.recovery_counts) != hit[2]:
+                    out.append(Violation("C08/wait_replay_dropped_counts", f"step {name}: the invocation suspended in wait_for_event with recovery counts {hit[2]} "
+                                         f"is back with {dict(a.recovery_counts)} after {type(c.tick).__name__}", _replay(tr)))
+                    dropped = True
+                    break
+            if dropped:
+                break
     # per lineage, counted from the TRACE (not from the counts the state carries): a lineage is an event and everything
     # returned by the invocations it (transitively) triggered, handler outputs included; ctx.send_event starts a new lineage
     if not spec.get("det_uids"):
@@ -742,8 +793,8 @@ def mon_c08(tr: Trace) -> list[Violation]:
         if c.after is None:
             continue
         for name, ws in c.after.workers.items():
-            for a in list(ws.queue) + list(ws.in_progress):
-                for h, n in a.recovery_counts.items():
+            for a in list(ws.queue) + list(ws.in_progress) + list(ws.collected_waiters):
+                for h, n in (getattr(a, "recovery_counts", None) or {}).items():
                     if n > maxrec.get(h, 10 ** 9):
                         out.append(Violation("C08/budget_exceeded", f"an attempt of {name} carries recovery count {n} for {h} (max_recoveries={maxrec.get(h)})", _replay(tr)))
                         return out
